@@ -35,10 +35,11 @@ Record wfn (take : Z) (n : list Z) : Prop := mkWfn {
   wn_check : ncheck_go n true take = 0;
   wn_len : len n <= IDENT_MAX }.
 
-Lemma wf_name_wfn take n : wf_name StPre take n = true -> wfn take n.
+Lemma wf_name_wfn r raw take n : wf_name StPre r raw take n = true -> wfn take n.
 Proof.
   unfold wf_name. destruct n as [|c0 n']; [discriminate|].
-  rewrite !andb_true_iff, !negb_true_iff, Z.eqb_eq, Z.leb_le. intros ((((A & B) & C) & D) & E).
+  rewrite !andb_true_iff, !negb_true_iff, Z.eqb_eq, Z.leb_le. intros (((((A & B) & C) & D) & E) & _).
+  assert (A' : forallb (name_char StPre) (c0 :: n') = true) by (destruct r; exact A).
   constructor; auto; try discriminate. apply Forall_forall. now apply forallb_forall.
 Qed.
 
